@@ -45,7 +45,7 @@ theorem quantLoop_within (tun : Tun) (cw : Nat) (mx weight lo hi : Rat) (l : Lis
     have hb := hmeans b (List.mem_cons_of_mem _ (List.mem_cons_self ..))
     unfold quantLoop
     simp +zetaHave only [rat_add, rat_div, rat_ofNat, rat_sub, rat_lt, rat_le, rat_half, rat_up, rat_down,
-      Nat.cast_ofNat, Nat.cast_zero, Nat.cast_one]
+      Nat.cast_ofNat, Nat.cast_zero]
     by_cases hfound : weight < (n : Rat) + (a.weight : Rat) / 2 + ((a.weight + b.weight : Nat) : Rat) / 2
     · rw [if_pos hfound]
       have hfound' := hfound
@@ -63,7 +63,7 @@ theorem quantLoop_within (tun : Tun) (cw : Nat) (mx weight lo hi : Rat) (l : Lis
             · have : ¬ weight - ((n : Rat) + (a.weight : Rat) / 2) < 1 / 2 := fun h => hA ⟨h1, h⟩
               simp only [h1, if_true] at this ⊢
               linarith
-            · simp only [h1, if_false]; push_cast; linarith
+            · simp only [h1, if_false]; linarith
           have hw2 : 0 < (n : Rat) + (a.weight : Rat) / 2 + ((a.weight + b.weight : Nat) : Rat) / 2 - weight
               - (if b.weight = 1 then (1 : Rat) / 2 else 0) := by
             by_cases h1 : b.weight = 1
@@ -85,7 +85,7 @@ theorem quantLoop_within (tun : Tun) (cw : Nat) (mx weight lo hi : Rat) (l : Lis
         have hb1 : b.weight = 1 := hlast b (by simp)
         exfalso
         have : (cw : Rat) = (n : Rat) + (a.weight : Rat) + 1 := by
-          rw [hcw]; simp [hb1]; push_cast; ring
+          rw [hcw]; simp [hb1]; ring
         rw [hb1] at hge
         push_cast at hge
         linarith
@@ -121,8 +121,8 @@ theorem quantC_within (tun : Tun) {s : St Rat} (h : Compressed s) (r : Rat) (h0 
       simp only []
       exact ⟨a.mean, rfl, by rw [hfm], by rw [hlm], fun _ => hfm, fun _ => hlm⟩
     | cons c2 rest =>
-      simp +zetaHave only [rat_mul, rat_ofNat, rat_lt, rat_sub, rat_div, rat_le, Nat.cast_ofNat, Nat.cast_zero, Nat.cast_one,
-        Bool.and_eq_true, decide_eq_true_eq]
+      simp +zetaHave only [rat_mul, rat_ofNat, rat_lt, rat_sub, rat_div, rat_le, Nat.cast_ofNat, Nat.cast_one,
+        Bool.and_eq_true]
       have hcw : s.cw = 0 + sumWeights (a :: c2 :: rest) := by rw [h.inv.cw, hcs]; simp
       have hc2 : 1 ≤ c2.weight := h.inv.pos c2 (by rw [hcs]; simp)
       have hcw2 : (2 : Rat) ≤ (s.cw : Rat) := by
